@@ -294,6 +294,8 @@ def write_evidence(m, pid, tier, seed, results, t0, batch_wall, known_seen,
         "undefined_input_runs": undefined,
         "lru_configs": m.lru_configs(tier),
         "coverage_matrix": {k: len(v) for k, v in extra.items()},
+        "coverage_lists": {k: sorted(v) for k, v in extra.items()
+                           if len(v) <= 60},
         "workers": NPROC,
     }
     if m.has_clock:
